@@ -14,8 +14,47 @@ def parseOI (s : String) : Option (Option Int) :=
 def nPeer : Nat := 8
 def u64 : Nat := 18446744073709551616
 
+/-- the `(kind amount)` pairs of a `first` line -/
+def pairs : List String → Option (List (String × Nat))
+  | [] => some []
+  | k :: a :: rest =>
+    match Driver.parseNat a, pairs rest with
+    | some a, some t => if k = "c" ∨ k = "r" ∨ k = "n" then some ((k, a) :: t) else none
+    | _, _ => none
+  | _ => none
+
+/-- `first`: k goroutines touch a peer without a record at the same time.  `getAccountingPeer` holds
+    the peer-map mutex across lookup, `RetrieveTraffic` and insertion, so exactly one record is built
+    and the operations then run one after the other under its lock; with opening balance ≥ Σ payments
+    (checked here) no payment truncates and the outcome does not depend on the order, so the listed
+    order is used.  `paid` (was a payment requested?) is only reported when there is no payment in
+    the group — otherwise it depends on the order. -/
+def first (st : St) (p : Nat) (rt : Option Int) (ops : List (String × Nat)) : St × String :=
+  let sumN : Nat := (ops.filter (·.1 = "n")).foldl (fun a x => a + x.2) 0
+  match rt with
+  | some r => if r < 0 ∨ r < sumN then (st, "bad-op") else
+    match st.unpaid p with
+    | some _ => (st, "known")
+    | none =>
+      let (st', pays) := ops.foldl (fun (acc : St × Nat) x =>
+        if x.1 = "c" then let (s', o) := credit cfg acc.1 p x.2 rt false; (s', acc.2 + o.pays)
+        else if x.1 = "n" then ((notify acc.1 p x.2 rt).1, acc.2)
+        else ((reserve acc.1 p x.2 rt (some (2 ^ 66))).1, acc.2)) (st, 0)
+      match st'.unpaid p with
+      | some u => (st', s!"ok unpaid={u} paid={if sumN > 0 then "-" else if pays > 0 then "1" else "0"}")
+      | none => (st', "err")
+  | none =>
+    match st.unpaid p with
+    | some _ => (st, "known")
+    | none => (st, "err")
+
 def step (st : St) (op : List String) : St × String :=
   match op with
+  | "first" :: p :: rt :: k :: rest =>
+    match Driver.parseNat p, parseOI rt, Driver.parseNat k, pairs rest with
+    | some p, some rt, some k, some ops =>
+      if p < nPeer ∧ 1 ≤ k ∧ k ≤ 4 ∧ ops.length = k ∧ ops.all (·.2 < u64) then first st p rt ops else (st, "bad-op")
+    | _, _, _, _ => (st, "bad-op")
   | ["reserve", p, amt, rt, av] =>
     match Driver.parseNat p, Driver.parseNat amt, parseOI rt, parseOI av with
     | some p, some amt, some rt, some av =>
